@@ -123,6 +123,33 @@ func count(fc uint8, fr specref.Framing, accepted bool) {
 	p.mu.Unlock()
 }
 
+// A frame handed out by Bytes() is the caller's: it is queued, logged, retried. What later calls encode must not change it.
+type keptFrame struct {
+	got, snap []byte
+	desc      string
+}
+
+var kept sync.Map // *Case -> *[]keptFrame
+
+func retain(c *Case, r *mon.Rec, got []byte, desc string) {
+	v, _ := kept.LoadOrStore(c, &[]keptFrame{})
+	l := v.(*[]keptFrame)
+	*l = append(*l, keptFrame{got, append([]byte{}, got...), desc})
+	if len(*l) > 24 {
+		checkKept(c, r, (*l)[:1])
+		*l = (*l)[1:]
+	}
+}
+
+func checkKept(c *Case, r *mon.Rec, l []keptFrame) {
+	for _, k := range l {
+		if !bytes.Equal(k.got, k.snap) {
+			r.Violate(c, "earlier-frame-changed-by-later-encode", mon.Attrs{}, fmt.Sprintf("the frame Bytes() returned for %s read % x when it was handed out and % x after later requests were encoded", k.desc, head(k.snap, 40), head(k.got, 40)))
+			return
+		}
+	}
+}
+
 // one observes one constructor call. what/value name the swept argument for the signature.
 func one(c *Case, r *mon.Rec, fr specref.Framing, q specref.Req, what string, value int) {
 	var req packet.Request
@@ -145,6 +172,7 @@ func one(c *Case, r *mon.Rec, fr specref.Framing, q specref.Req, what string, va
 		r.Violate(c, "bytes-panics", mon.Attrs{"fc": int(q.FC), "framing": fr.String(), "what": what, "value": value}, txt)
 		return
 	}
+	retain(c, r, got, fmt.Sprintf("fc%d %s %s=%d", q.FC, fr, what, value))
 	legal := q.Legal()
 	if !legal {
 		r.Violate(c, "accepts-illegal", mon.Attrs{"fc": int(q.FC), "framing": fr.String(), "what": what, "value": value},
@@ -250,6 +278,9 @@ func run(ci any, r *mon.Rec) {
 		// the constructors are given sub-slices of larger buffers (libx.NewRequest): the caller's memory must come back untouched
 		if m := libx.TakeArgMutation(); m != "" {
 			r.Violate(c, "constructor-mutates-argument", mon.Attrs{}, m)
+		}
+		if v, ok := kept.LoadAndDelete(c); ok {
+			checkKept(c, r, *v.(*[]keptFrame))
 		}
 	}()
 	fr := specref.Framing(c.Framing)
